@@ -171,9 +171,18 @@ def run_quiet(prop, scenario):
     old = signal.signal(signal.SIGALRM, _on_alarm)
     limit = float(getattr(prop, 'RUN_LIMIT_S', RUN_LIMIT_S))
     signal.setitimer(signal.ITIMER_REAL, limit)
+    from . import monitors as _M
+    restore_env = _M.set_env(scenario.get('_env') if isinstance(scenario, dict) else None)
     try:
         with contextlib.redirect_stdout(_Sink()):
-            return prop.run(scenario)
+            res = prop.run(scenario)
+            env = scenario.get('_env') if isinstance(scenario, dict) else None
+            if env and not res.discarded:
+                if env.get('decor') is not None:
+                    res.faults['spec_text_decorated'] += 1
+                if env.get('knobs') is not None and _M.knob_count():
+                    res.faults['tuning_constants_shrunk'] += 1
+            return res
     except RunTimeout:
         res = Result()
         res.violate('hang', limit_s=limit)
@@ -189,11 +198,22 @@ def run_quiet(prop, scenario):
     finally:
         signal.setitimer(signal.ITIMER_REAL, 0)
         signal.signal(signal.SIGALRM, old)
+        restore_env()
 
 
 def one_run(prop, seed, k, tier):
     rng = prng.rng_for(seed, prop.ID, k)
     scenario = prop.gen(rng, tier)
+    # run environment (drawn after the scenario, so scenarios are unchanged by it): decorated specification texts, shrunk
+    # tuning constants - see sim/monitors.py
+    if isinstance(scenario, dict):
+        env = {}
+        if rng.random() < 0.15:
+            env['decor'] = rng.randrange(1 << 30)
+        if rng.random() < 0.25:
+            env['knobs'] = rng.randrange(1 << 30)
+        if env:
+            scenario['_env'] = env
     res = run_quiet(prop, scenario)
     return scenario, res
 
@@ -286,6 +306,20 @@ def same_failure(prop, scenario, clause, exc_type=None):
     return True
 
 
+def _with_env_candidates(cur, sh):
+    """first try to drop the run environment (decorated texts, shrunk tuning constants), then the property's own candidates"""
+    env = cur.get('_env') if isinstance(cur, dict) else None
+    if env:
+        for k in sorted(env):
+            c = dict(cur)
+            c['_env'] = dict((kk, v) for kk, v in env.items() if kk != k)
+            if not c['_env']:
+                del c['_env']
+            yield c
+    for cand in sh(cur):
+        yield cand
+
+
 def shrink(prop, scenario, clause, max_exec=600, max_s=45.0):
     sh = getattr(prop, 'shrinks', None)
     if sh is None:
@@ -300,7 +334,7 @@ def shrink(prop, scenario, clause, max_exec=600, max_s=45.0):
     progress = True
     while progress and n_exec < max_exec and time.time() - t0 < max_s:
         progress = False
-        for cand in sh(cur):
+        for cand in _with_env_candidates(cur, sh):
             n_exec += 1
             if n_exec >= max_exec or time.time() - t0 > max_s:
                 break
